@@ -39,6 +39,11 @@ XStep ==
                                        ELSE IF os2[c] = os[c] THEN shp[c] ELSE <<-1>>]
               usable == /\ Mine(e.c) /\ e.op \in Modelled /\ known
                         /\ Len(shp[e.c]) = Len(os[e.c]) /\ (e.op = "count" => Multi) /\ (e.op = "bulk" => ~Multi)
+                        \* observations of a damaged container (list and size counter disagree, ...) are not modelled
+                        /\ e.size[e.c] = e.n /\ Len(os2[e.c]) = e.n /\ e.bwd /\ \A j \in 1..NC : Len(os[j]) = e.size[j] \/ j = e.c
+                        /\ (e.op = "removeAt" => e.p \in 1..Len(os[e.c]))
+                        /\ (e.op = "insertHint" => e.p \in 1..Len(os[e.c]) + 1)
+                        /\ (e.op \in {"removeFront", "removeBack", "front", "back"} => Len(os[e.c]) > 0)
           IN /\ os' = (IF e.op = "fini" THEN Init0 ELSE os2)
              /\ shp' = (IF e.op = "fini" THEN [c \in 1..NC |-> <<>>] ELSE shp2)
              /\ IF ~usable THEN UNCHANGED <<ndrift, nchk>>
